@@ -122,6 +122,14 @@ class Uni:
             eff = ch.mkeffect(category_id=EffectCategoryId.passive,
                               modifiers=[mod(f, a, ModOperator.post_mul, src) for f, a in tgts])
             self.imp[kind] = (src, eff)
+        # one effect that changes the shift amount of the hardeners of group 901 and an attribute the simulator ignores
+        # on those of group 902: a single change message names both kinds of hardener (used by C08's designed case)
+        src = ch.mkattr(stackable=True).id
+        self.imp['g1shift+g2misc'] = (src, ch.mkeffect(category_id=EffectCategoryId.passive, modifiers=[
+            DogmaModifier(affectee_filter=ModAffecteeFilter.domain_group, affectee_domain=ModDomain.ship,
+                          affectee_filter_extra_arg=g, affectee_attr_id=a, operator=ModOperator.post_mul,
+                          aggregate_mode=ModAggregateMode.stack, affector_attr_id=src)
+            for g, a in ((901, self.shift), (902, self.misc))]))
         self._types = {}
 
     def _type(self, key, make):
@@ -133,18 +141,19 @@ class Uni:
         return self._type(('ship', tuple(v)), lambda: self.ch.mktype(
             category_id=self.cat.ship, attrs={**dict(zip(self.res.values(), v)), self.misc: 100.0}))
 
-    def rah_type(self, v, shift, cyc):
+    def rah_type(self, v, shift, cyc, group=None):
         """shift None: type lacks the attribute; cyc None: likewise (the effect still names the attribute)."""
         def make():
             attrs = dict(zip(self.res.values(), v))
             attrs[self.heat] = -15
+            attrs[self.misc] = 7.0
             if shift is not None:
                 attrs[self.shift] = shift
             if cyc is not None:
                 attrs[self.cyc] = cyc
-            return self.ch.mktype(category_id=self.cat.module, attrs=attrs,
+            return self.ch.mktype(category_id=self.cat.module, group_id=group, attrs=attrs,
                                   effects=(self.rah_eff, self.heat_eff), default_effect=self.rah_eff)
-        return self._type(('rah', tuple(v), shift, cyc), make)
+        return self._type(('rah', tuple(v), shift, cyc, group), make)
 
     def imp_type(self, kind, value):
         src, eff = self.imp[kind]
@@ -293,7 +302,7 @@ class Impl:
             v = op['v']
             self.fit.ship = None if v is None else Ship(999999 if v == 'unloaded' else self.u.ship_type(v))
         elif k == 'add':
-            m = ModuleLow(self.u.rah_type(op['v'], op['shift'], op['cyc']), state=State(op['state']))
+            m = ModuleLow(self.u.rah_type(op['v'], op['shift'], op['cyc'], op.get('g')), state=State(op['state']))
             self.fit.modules.low.append(m)
             self.mods.append(m)
         elif k == 'rm':
